@@ -102,11 +102,50 @@ pub static C06: E1Prop = E1Prop {
     extra: None,
 };
 
+fn gen_c04(t: &mut Tape, l: &mut Vec<&'static str>) -> Option<Case> {
+    gen_standard(t, l, GenOpts::stmt_comments(), false, true)
+}
+
+pub static C04: E1Prop = E1Prop {
+    id: "C04",
+    oracle: |c, o, _| oracle::c04(c, o),
+    rule: "E2 (seed independent, exhaustive): every string body over the escape-relevant alphabet {' \" \\ n 0 1 9 x u { } z a q LF space} up to length 3 plus length 4 over an 11-symbol sub-alphabet (quick) / length 4 plus length 5 over the sub-alphabet, CRLF and lone CR variants (thorough), in single-quoted, double-quoted and long-bracket (level 0 and 1) form, each placed in six syntactic positions of one program (assignment, call without parentheses, call argument, table key, index, concatenation) x 4 quote styles x 2 line endings x {Lua51, Lua54, Luau}; every numeric spelling of a grammar enumeration per syntax (decimal / hex / hex-float / exponent / 64-bit edge values / Luau separators and binary / LuaJIT suffixes) in four positions, with and without verify mode. Plus T0 (corpus x catalogue) and T1 (generated programs). Oracle: for every literal token in order, the value denoted in the output (own decoder: all Lua escapes, \\z, line continuations, long-bracket newline rules; numbers as 64-bit integer or IEEE double per syntax) equals the value in the input. Non-trivial: at least one literal is re-spelled. Literals the parser rejects are skipped and counted.",
+    gen_case: gen_c04,
+    quick_cases: 30_000,
+    thorough_cases: 500_000,
+    use_t0: true,
+    tape_len: 600,
+    assumptions: &["digits are represented by 0, 1, 9 (both regular expressions of the quote rewrite treat all digits alike)", "an unknown escape `\\c` denotes `c` (Lua 5.1 rule, which full_moon accepts in every syntax)"],
+    extra: Some(crate::enums::c04_extra),
+};
+
+fn gen_none(_t: &mut Tape, _l: &mut Vec<&'static str>) -> Option<Case> {
+    None
+}
+
+pub static C05: E1Prop = E1Prop {
+    id: "C05",
+    oracle: |c, o, _| match oracle::c01(c, o) {
+        Verdict::Fail(d) => Verdict::Fail(d),
+        _ => oracle::c02(c, o),
+    },
+    rule: "E2 (seed independent): expression skeletons over every binary operator of the syntax (or and < == .. + * ^ and, where available, // | ~ & <<) and every unary operator (- not # ~), with one and two operators exhaustively plus unary-in-binary-in-binary shapes (quick, every 11th item) and three operators over 8 operators (thorough, all items), parentheses absent / single / double on every inner node, leaves = names of 1, 8 and 30 characters or one special leaf (number, string, call, `...`, `(f())`, `(...)`, method call, index, table, function, Luau `x :: T`, `(x :: T)`, if-expression bare and parenthesised), each placed in 16 contexts (local, assignment, return single / last, if / while / until condition, argument single / last, method argument, table field positional-last / named / key, index, call prefix, index prefix) and formatted at 6 width classes relative to its natural width (infinite, natural, natural-1, half, third, 1) so that single-line, hanging-at-top and hanging-everywhere layouts all occur. Oracle: the output parses and has the same normal form N (operator tree with explicit grouping, `trunc` markers in multi-value positions, type assertions, if-expressions) and token sequence T as the input. Non-trivial: the output has fewer parentheses than the input.",
+    gen_case: gen_none,
+    quick_cases: 0,
+    thorough_cases: 0,
+    use_t0: false,
+    tape_len: 8,
+    assumptions: &["comments are absent from the enumerated programs (C03 covers comments on removed parentheses)"],
+    extra: Some(crate::enums::c05_extra),
+};
+
 pub fn e1_prop(id: &str) -> Option<&'static E1Prop> {
     match id {
         "C01" => Some(&C01),
         "C02" => Some(&C02),
         "C03" => Some(&C03),
+        "C04" => Some(&C04),
+        "C05" => Some(&C05),
         "C06" => Some(&C06),
         "C07" => Some(&C07),
         "C10" => Some(&C10),
@@ -364,7 +403,42 @@ const LUAU_FAMILIES: [Family; 4] = [
 /// tick budget for one member of a scaling family (an exponential family stops here)
 const FAMILY_BUDGET: u64 = 4_000_000;
 
+/// every numeric spelling of C04's enumeration, formatted in verify mode: must return, never unwind
+fn c07_numbers_verify(rep: &mut Reporter, stats: &mut Stats) {
+    use crate::cfg::Cfg;
+    use crate::engine::run_format;
+    use crate::lex::Syntax;
+    let mut items: Vec<(Syntax, String)> = Vec::new();
+    for syn in Syntax::ALL {
+        for n in crate::enums::number_spellings(syn) {
+            items.push((syn, n));
+        }
+    }
+    let results = crate::engine::par_map(&items, |_, (syn, n)| {
+        let mut case = Case::new(format!("x = {n}\ny = -{n}\n"), Cfg::default_for(*syn));
+        case.verify = true;
+        let (out, ticks) = run_format(&case);
+        (oracle::c07(&case, &out, ticks), case)
+    });
+    for (v, case) in results {
+        match v {
+            Verdict::Fail(d) if d.starts_with("panic:") && oracle::known_panic(&d).is_some() && oracle::parses(&case.source, case.cfg.syntax).is_err() => {
+                stats.skip("KF-C07-fullmoon-parser-panic");
+            }
+            Verdict::Fail(d) => {
+                stats.count("numbers-verify-mode");
+                rep.violation(crate::e1::replay_value("C07", &case, &d, "numbers-verify-mode"), "num");
+            }
+            _ => {
+                stats.count("numbers-verify-mode");
+                stats.nontrivial.insert(case.hash64());
+            }
+        }
+    }
+}
+
 fn c07_scaling(rep: &mut Reporter, stats: &mut Stats, tier: Tier, findings: &[Finding]) {
+    c07_numbers_verify(rep, stats);
     use crate::cfg::Cfg;
     use crate::engine::{run_format_budget, Outcome};
     use crate::lex::Syntax;
